@@ -84,7 +84,8 @@ class Engine(EngineBase):
                 depth += 1
                 continue
             if kind == "buffer" and r < 0.22 and depth > 0:
-                ops.append(["exit"])
+                # a block is left normally, or by an exception that propagates out of it
+                ops.append(["exit"] if rng.random() < 0.75 else ["exit", "exc"])
                 depth -= 1
                 continue
             if kind == "buffer" and r < 0.25:
@@ -233,9 +234,25 @@ class World:
         c.__enter__()
         self.ctx.append(c)
 
-    def exit(self):
+    def exit(self, with_exception=False):
         try:
+            if with_exception:
+                # what the with statement does when the body raises: the block must still be left
+                # (flushed, buffering switched off) and the exception must propagate (falsy result)
+                boom = KeyError("raised inside the block")
+                try:
+                    swallowed = self.ctx.pop().__exit__(KeyError, boom, None)
+                except KeyError as e:
+                    if e is not boom:
+                        raise
+                    swallowed = False
+                if swallowed:
+                    raise Mismatch("C05", "C05:buffered:exception-swallowed",
+                                   f"world {self.mode}: signac.buffered() swallowed an exception raised in its body")
+                return
             self.ctx.pop().__exit__(None, None, None)
+        except Mismatch:
+            raise
         except Exception as e:  # noqa: BLE001 - leaving a buffered block must flush, not fail
             raise Mismatch("C05", "C05:buffered:exit-raised",
                            f"world {self.mode}: leaving signac.buffered() raised {type(e).__name__}: {str(e)[:200]}",
@@ -318,8 +335,12 @@ class Run:
             if w.mode == "asgen" and w.depth():
                 if w.depth() == 1:
                     self.block_exit(w)
-                w.exit()
+                w.exit(with_exception=len(op) > 1)
                 if w.depth() == 0:
+                    if self.signac.is_buffered():
+                        raise Mismatch("C05", "C05:buffered:still-buffered-after-exit",
+                                       f"world {w.mode}: signac.is_buffered() is still true after the outermost "
+                                       f"block was left ({'by an exception' if len(op) > 1 else 'normally'})")
                     self.check_all(w, "after leaving the buffered block")
             return
         if k == "capacity":
